@@ -19,7 +19,7 @@ use simcore::dna;
 use simcore::driver::{guarded, Harness, Tier};
 use simcore::io::{Hard, IoPlan, SimReader, SimWriter};
 use simcore::model::{first_diff, kmer_from_bases, node_bases, probes, transcript};
-use simcore::pipe::base_graph_counts;
+use simcore::pipe::base_graph_for;
 use simcore::rec::{Rec, Violation};
 use simcore::rng::Rng;
 use std::collections::BTreeMap;
@@ -31,7 +31,7 @@ use crate::with_k;
 pub const KTYPES: [&str; 7] = ["Kmer4", "Kmer6", "Kmer8", "Kmer16", "KmerK31", "Kmer32", "Kmer48"];
 
 fn build<K: Kmer + Send + Sync>(g: &GraphSpec, parallel: bool) -> DebruijnGraph<K, u16> {
-    let b = base_graph_counts::<K>(&g.reads, g.stranded, g.min_count);
+    let b = base_graph_for::<K>(g);
     if parallel {
         b.finish()
     } else {
@@ -60,7 +60,11 @@ fn gen_hard_r(rng: &mut Rng) -> Hard {
 
 fn gen_plan(rng: &mut Rng, writer: bool) -> IoPlan {
     match rng.below(10) {
-        0 => IoPlan::clean(),
+        0 => {
+            let mut p = IoPlan::clean();
+            p.seed = rng.next_u64();
+            p
+        }
         1..=6 => IoPlan::gen_transparent(rng),
         _ => {
             let mut p = if rng.chance(1, 2) { IoPlan::gen_transparent(rng) } else { IoPlan::clean() };
@@ -209,7 +213,7 @@ fn graph_same<K: Kmer, D: Debug>(a: &DebruijnGraph<K, D>, b: &DebruijnGraph<K, D
 }
 
 fn basegraph_rt<K: Kmer + Send + Sync + Serialize + DeserializeOwned>(g: &GraphSpec, c: &SerdeCase, rec: &mut Rec) -> Result<(), Violation> {
-    let b: BaseGraph<K, u16> = base_graph_counts::<K>(&g.reads, g.stranded, g.min_count);
+    let b: BaseGraph<K, u16> = base_graph_for::<K>(g);
     rec.ev("graph", b.len() as u64, 0);
     round_trip("serde BaseGraph", &b, c, rec, &|a: &BaseGraph<K, u16>, x: &BaseGraph<K, u16>| {
         if a.len() != x.len() || a.stranded != x.stranded || a.exts != x.exts || a.data != x.data {
@@ -837,6 +841,15 @@ fn run_export<K: Kmer + Send + Sync>(c: &ExportCase, rec: &mut Rec) -> Result<()
                 Device::Tmp => {
                     rec.choice("device", 0, true);
                     let p = tmp_path("tmp");
+                    // half of the time the destination already holds a longer, older export
+                    let stale = c.plan.seed % 2 == 1;
+                    if stale {
+                        let mut old = clean.clone();
+                        old.extend_from_slice(b"S\t999999\tACGTACGTACGT\nL\t999999\t+\t999999\t+\t3M\n");
+                        old.extend_from_slice(&clean);
+                        let _ = std::fs::write(&p, &old);
+                        rec.count("env_destination_holds_older_longer_file");
+                    }
                     let r = file_export(&g, tags, &p);
                     let content = std::fs::read(&p).unwrap_or_default();
                     let _ = std::fs::remove_file(&p);
